@@ -177,7 +177,7 @@ func cropParamFileName(crop, variety string, yml bool) string {
 
 // convertWithBinary runs the real cropfileconverter on a classic parameter file.
 func convertWithBinary(input, output string) error {
-	bin := filepath.Join(verifDir, ".build", "cropfileconverter")
+	bin := filepath.Join(buildDir(), "cropfileconverter")
 	cmd := exec.Command(bin, "-input", input, "-output", output)
 	outb, err := cmd.CombinedOutput()
 	if err != nil {
